@@ -20,6 +20,9 @@
  *   OBJ <slot> <hexptr> std::string object whose _M_dataplus is <hexptr> -> "ok addr=<hex>"
  *   E <fn>             mcount_entry(f<fn>)   -> "rc= hij= idx= xc=<mask of xmm registers changed by the hook> arg=<flag> sz=<size field> mem=<hex>"
  *   X                  mcount_exit           -> "ret= rvf=<flag> sz= mem=<hex> recs=<hex>"
+ *   XTA <hex trigger|-> <hex args|-> <hex rets|->
+ *                      extract_trigger_args() of the snapshot (what `uftrace record` stores in the info file
+ *                      for -T / -A / -R)  -> "n=<rc> argspec=<hex|-> retspec=<hex|->"
  *   END
  * mem = bytes [4, 2048) of the frame's slice (i.e. including the whole next slice) without the
  * trailing bytes that still have the fill value.
@@ -68,6 +71,36 @@ static fn_t funcs[] = { f0,  f1,  f2,  f3,  f4,  f5,  f6,  f7,  f8,  f9,  f10, f
 extern int mcount_entry(unsigned long *parent_loc, unsigned long child, struct mcount_regs *regs);
 extern unsigned long mcount_exit(long *retval);
 extern unsigned long mcount_return_fn;
+extern int extract_trigger_args(char **pargs, char **prets, char *trigger);
+
+static char *xta_arg(const char *h)
+{
+	size_t n = strlen(h) / 2, i;
+	char *out;
+
+	if (!strcmp(h, "-"))
+		return NULL;
+	out = malloc(n + 1);
+	for (i = 0; i < n; i++) {
+		unsigned v;
+
+		sscanf(h + 2 * i, "%2x", &v);
+		out[i] = v;
+	}
+	out[n] = 0;
+	return out;
+}
+
+static void xta_out(const char *k, const char *s)
+{
+	printf(" %s=", k);
+	if (s == NULL || !*s) {
+		printf("%s", s ? "00" : "-");
+		return;
+	}
+	for (; *s; s++)
+		printf("%02x", (unsigned char)*s);
+}
 
 #define NSTACK 112
 struct hframe {
@@ -256,7 +289,25 @@ int main(void)
 			continue;
 		opno++;
 		cur_opno = opno;
-		if (!strcmp(op, "STRAT")) {
+		if (!strcmp(op, "XTA")) {
+			static char t[8000], a[8000], r[8000];
+			char *trg, *args, *rets, *a0, *r0;
+			int rc;
+
+			t[0] = a[0] = r[0] = 0;
+			sscanf(line, "%*s %7999s %7999s %7999s", t, a, r);
+			trg = xta_arg(t);
+			a0 = args = xta_arg(a);
+			r0 = rets = xta_arg(r);
+			rc = extract_trigger_args(&args, &rets, trg);
+			printf("%d n=%d", opno, rc);
+			xta_out("argspec", args);
+			xta_out("retspec", rets);
+			printf("\n");
+			(void)a0;
+			(void)r0;
+		}
+		else if (!strcmp(op, "STRAT")) {
 			unsigned char tmp[160];
 			char *dst = (char *)strtoull(a1, NULL, 16);
 			int len = unhex(a2, tmp, 150);
